@@ -1,4 +1,5 @@
 import Flowjaxv.Proofs.Losses
+import Flowjaxv.Proofs.LossesGen
 import Flowjaxv.Proofs.ElboAd
 /-!
 # C17 — the three losses compute their defining formulas
@@ -154,6 +155,131 @@ theorem contrastive_instance :
   have h1 : choices 2 1 = [0] := by decide
   simp [Finset.sum_range_succ, logit, h0, h1]
   norm_num
+
+/-! ## The losses as REGENERATED from `flowjax/train/losses.py` (`Gen/LossesGen.lean`)
+
+`tools/py2lean/py2meth.py` translates `MaximumLikelihoodLoss.__call__`, `ElboLoss.__init__/__call__` (both
+`stick_the_landing` branches), `ContrastiveLoss.__init__/__call__` (guard, the closure `single_x_loss`, `filter_vmap`, `.mean()`)
+and `_get_contrastive_idxs` (with its vmapped `_get_idxs`) statement by statement on every run; the library calls get their
+meaning from the world `Lw.World` of `Model/LossWorld.lean` (an abstract `eqx.combine` / `unwrap` / distribution methods /
+`jr.split` / the permutation behind `jr.choice(replace=False)`).  The `gen_*_eq` theorems: the generated functions equal the hand
+model above for EVERY world, scalar type and input; the remaining ones restate the value theorems on the generated definitions.
+The one guarantee taken from JAX is `W.ChoiceIsPerm`: `jr.choice(key, a, (n,), replace=False)` is a prefix of a permutation of `a`. -/
+section generated
+open GenLosses LossesGen
+variable {P S D : Type}
+
+/-- generated `MaximumLikelihoodLoss.__call__` = hand model `mleLoss` (every scalar type) -/
+theorem gen_mle_eq {α : Type} [Add α] [Sub α] [Div α] [Neg α] [LT α] [DecidableLT α] [OfNat α 0] [OfNat α 1] [Transc α]
+    (W : Lw.World X C K P S D α) (params : P) (static : S) (xs : List X) (cs : List C) :
+    mleCall W params static xs cs = mleLoss (W.methods (W.unwrap (W.combine params static))) xs cs :=
+  mle_eq W params static xs cs
+
+/-- generated `ElboLoss.__call__` = hand model `elboLoss` in BOTH `stick_the_landing` settings, the per-sample keys being
+`jr.split(key, num_samples)` -/
+theorem gen_elbo_eq {α : Type} [Add α] [Sub α] [Div α] [Neg α] [LT α] [DecidableLT α] [OfNat α 0] [OfNat α 1] [Transc α]
+    (W : Lw.World X C K P S D α) (target : X → α) (n : ℕ) (params : P) (static : S) (key : K) :
+    elboCall W (ElboLoss.init target n false) params static key
+        = elboLoss (W.methods (W.combine params static)) target false (Lw.keys W key n) W.noCond ∧
+    elboCall W (ElboLoss.init target n true) params static key
+        = elboLoss (W.methods (W.combine params static)) target true (Lw.keys W key n) W.noCond :=
+  ⟨elbo_eq W _ params static key, elbo_eq W _ params static key⟩
+
+/-- generated `_get_contrastive_idxs(key, b, n)` = hand model `contrastiveIdxs` (it does not raise) whenever `n < b`, and it
+raises for a non-empty batch with `n ≥ b` -/
+theorem gen_contrastive_idxs_eq {α : Type} [Add α] [Sub α] [Div α] [Neg α] [LT α] [DecidableLT α] [OfNat α 0] [OfNat α 1]
+    [Transc α] (W : Lw.World X C K P S D α) (key : K) (b n : ℕ) :
+    (b = 0 ∨ n < b → getContrastiveIdxs W key b n = some (contrastiveIdxs b n (permOf W key b))) ∧
+    (0 < b → b ≤ n → getContrastiveIdxs W key b n = none) :=
+  ⟨contrastive_idxs_eq W key b n, contrastive_idxs_raises W key b n⟩
+
+/-- generated `ContrastiveLoss.__call__` = hand model `contrastiveLoss` for ALL inputs (accepted and rejected) -/
+theorem gen_contrastive_eq {α : Type} [Add α] [Sub α] [Div α] [Neg α] [LT α] [DecidableLT α] [OfNat α 0] [OfNat α 1] [Transc α]
+    (W : Lw.World X C K P S D α) (prior : X → α) (n : ℕ) (params : P) (static : S) (xs : List X) (cs : List C) (key : K) :
+    contrastiveCall W (ContrastiveLoss.init prior n) params static xs cs key
+      = contrastiveLoss (W.methods (W.unwrap (W.combine params static))) prior n xs cs (permOf W key xs.length) :=
+  contrastive_eq W _ params static xs cs key
+
+/-- the permutations the world draws are an admissible family as soon as `jr.choice(replace=False)` draws from a permutation -/
+theorem gen_perm_admissible (W : Lw.World X C K P S D ℝ) (hW : W.ChoiceIsPerm) (key : K) (b : ℕ) :
+    Admissible b (permOf W key b) := fun i _ => hW _ _
+
+/-- `mle_def` on the generated code -/
+theorem gen_mle_def (W : Lw.World X C K P S D ℝ) (params : P) (static : S) (b : ℕ) (x : ℕ → X) (c : ℕ → C) :
+    mleCall W params static ((List.range b).map x) ((List.range b).map c)
+      = -((∑ i ∈ Finset.range b, (W.methods (W.unwrap (W.combine params static))).logProb (x i) (c i)) / (b : ℝ)) := by
+  rw [gen_mle_eq, mle_def]
+
+/-- `elbo_def` on the generated code: the mean over the keys `jr.split(key, n)[i]` of `log q(x) − target(x)` -/
+theorem gen_elbo_def (W : Lw.World X C K P S D ℝ) (target : X → ℝ) (n : ℕ) (params : P) (static : S) (key : K) :
+    elboCall W (ElboLoss.init target n false) params static key
+        = (∑ i ∈ Finset.range n, (((W.methods (W.combine params static)).sampleLp (W.split key n i) W.noCond).2
+            - target ((W.methods (W.combine params static)).sampleLp (W.split key n i) W.noCond).1)) / (n : ℝ)
+    ∧ elboCall W (ElboLoss.init target n true) params static key
+        = (∑ i ∈ Finset.range n, ((W.methods (W.combine params static)).logProb
+              ((W.methods (W.combine params static)).sample (W.split key n i) W.noCond) W.noCond
+            - target ((W.methods (W.combine params static)).sample (W.split key n i) W.noCond))) / (n : ℝ) := by
+  rw [(gen_elbo_eq W target n params static key).1, (gen_elbo_eq W target n params static key).2]
+  exact elbo_def _ target n (W.split key n) W.noCond
+
+/-- `elbo_stl_same_value` on the generated code -/
+theorem gen_elbo_stl_same_value (W : Lw.World X C K P S D ℝ) (target : X → ℝ) (n : ℕ) (params : P) (static : S) (key : K)
+    (hd : (W.methods (W.combine params static)).Consistent) :
+    elboCall W (ElboLoss.init target n true) params static key
+      = elboCall W (ElboLoss.init target n false) params static key := by
+  rw [(gen_elbo_eq W target n params static key).1, (gen_elbo_eq W target n params static key).2]
+  exact elbo_stl_same_value _ hd target _ _
+
+/-- `contrastive_idxs_valid` on the generated code: for `n < b` the generated `_get_contrastive_idxs` returns `b` rows, each with
+exactly `n` pairwise distinct indices, none its own, all `< b` — given only that `jr.choice(replace=False)` draws from a permutation -/
+theorem gen_contrastive_idxs_valid (W : Lw.World X C K P S D ℝ) (hW : W.ChoiceIsPerm) (key : K) (b n : ℕ) (hn : n < b) :
+    ∃ rows, getContrastiveIdxs W key b n = some rows ∧ rows.length = b ∧
+      ∀ i, i < b → ∃ row, rows[i]? = some row ∧ row.length = n ∧ row.Nodup ∧ i ∉ row ∧ ∀ j ∈ row, j < b :=
+  ⟨_, (gen_contrastive_idxs_eq W key b n).1 (Or.inr hn),
+    contrastive_idxs_valid b n _ hn (gen_perm_admissible W hW key b)⟩
+
+/-- `contrastive_def` on the generated code -/
+theorem gen_contrastive_def (W : Lw.World X C K P S D ℝ) (hW : W.ChoiceIsPerm) (prior : X → ℝ) (params : P) (static : S)
+    (key : K) (b n : ℕ) (x : ℕ → X) (c : ℕ → C) (hn : n < b) :
+    contrastiveCall W (ContrastiveLoss.init prior n) params static ((List.range b).map x) ((List.range b).map c) key
+      = some ((∑ i ∈ Finset.range b,
+          -Real.log (Real.exp (logit (W.methods (W.unwrap (W.combine params static))) prior (x i) (c i)) /
+            (Real.exp (logit (W.methods (W.unwrap (W.combine params static))) prior (x i) (c i))
+              + (((permOf W key b i).take n).map fun j =>
+                  Real.exp (logit (W.methods (W.unwrap (W.combine params static))) prior (x j) (c i))).sum))) / (b : ℝ)) := by
+  rw [gen_contrastive_eq]
+  simp only [List.length_map, List.length_range]
+  exact contrastive_def _ prior b n x c _ hn (gen_perm_admissible W hW key b)
+
+/-- `contrastive_nonneg` and `contrastive_guard` on the generated code: a value `≥ 0` whenever `n < b`; `none` (the call raises)
+exactly when the batch is not larger than `n_contrastive` or the condition batch differs -/
+theorem gen_contrastive_nonneg (W : Lw.World X C K P S D ℝ) (hW : W.ChoiceIsPerm) (prior : X → ℝ) (params : P) (static : S)
+    (key : K) (n : ℕ) :
+    (∀ (b : ℕ) (x : ℕ → X) (c : ℕ → C), n < b →
+      ∃ v, contrastiveCall W (ContrastiveLoss.init prior n) params static ((List.range b).map x) ((List.range b).map c) key
+        = some v ∧ 0 ≤ v) ∧
+    (∀ (xs : List X) (cs : List C),
+      contrastiveCall W (ContrastiveLoss.init prior n) params static xs cs key = none ↔ (xs.length ≤ n ∨ cs.length ≠ xs.length)) := by
+  constructor
+  · intro b x c hn
+    rw [gen_contrastive_eq]
+    simp only [List.length_map, List.length_range]
+    exact (contrastive_nonneg _ prior b n x c _ hn (gen_perm_admissible W hW key b)).2
+  · intro xs cs
+    rw [gen_contrastive_eq]
+    exact contrastive_guard _ prior n xs cs _ (gen_perm_admissible W hW key xs.length)
+
+/-- non-vacuity: a concrete world (keys and points are naturals, `jr.choice` draws the candidates in order) satisfies
+`ChoiceIsPerm`, and the generated index function evaluates to the expected table -/
+theorem gen_instance :
+    let W : Lw.World ℕ Unit ℕ Unit Unit Unit ℝ :=
+      ⟨fun _ _ => (), id, fun _ => ⟨fun _ _ => 0, fun k _ => k, fun k _ => (k, 0)⟩, fun k _ i => k + i, (), fun _ a => a,
+        fun _ a n => a.take n⟩
+    W.ChoiceIsPerm ∧ getContrastiveIdxs W 0 3 2 = some [[1, 2], [0, 2], [0, 1]] := by
+  refine ⟨fun _ _ => List.Perm.refl _, ?_⟩
+  decide
+
+end generated
 
 /-! ## The gradient clause: stick-the-landing omits the score-function term
 
